@@ -682,7 +682,6 @@ func c14child() {
 		os.RemoveAll(dir)
 		b, _ := json.Marshal(&obs)
 		out.Write(append(b, '\n'))
-		out.Sync()
 		k++
 	}
 	out.Close()
@@ -1494,8 +1493,14 @@ func c14runBatch(ctx *hlib.Ctx, w int, cases []*c14case) []c14obs {
 			code = ee.ExitCode()
 		}
 		se := stderr.String()
-		if len(se) > 600 {
-			se = se[:600]
+		for _, mark := range []string{"panic:", "fatal error:"} {
+			if k := strings.Index(se, mark); k >= 0 {
+				se = se[k:]
+				break
+			}
+		}
+		if len(se) > 500 {
+			se = se[:500]
 		}
 		switch {
 		case err == nil || code == 3 || code == 4:
@@ -1544,7 +1549,7 @@ func c14driver(ctx *hlib.Ctx) {
 		}
 	}
 
-	workers := 8
+	workers := 12
 	if len(g.cases) < 64 {
 		workers = 2
 	}
